@@ -196,7 +196,8 @@ def assess_jobs(vc):
             D[i, j] = vc.bool(f"D[{i},{j}]")
     jobs, order = [], []
     vc.install(CE + "@TaskExecutionRegistration", lambda eng, est, tstore, sensors: ("job", est, list(sensors)))
-    vc.install(CE + "@TaskingRewardRegistration", lambda *a: ("reward",) + a[1:2])
+    rjobs = []
+    vc.install(CE + "@TaskingRewardRegistration", lambda eng_, est, rew, handles: (rjobs.append((est, list(handles))), ("reward", est))[1])
     vc.install(CE + "@handleRelevantEvents", lambda *a, **k: order.append("events"))
     vc.install(CE + "@datetimeToJulianDate", lambda d: d)
     C = vc.cls(CE + "CentralizedTaskingEngine")
@@ -207,10 +208,11 @@ def assess_jobs(vc):
         order.append("generateTasking")
         self.decision_matrix = D
     eng.__dict__.update(_observations=stale_obs, sensor_changes=stale_changes, target_list=tl, sensor_list=sl, _reward=_NS(metrics=[1]), _realtime_obs=True,
-                        _sensor_store={1: "S1", 2: "S2"}, _estimate_store={10: "E10", 11: "E11", 12: "E12"}, _target_store={"t": 1}, reward="R",
+                        # (the scenario-wide store lists sensors in the order they were created - here NOT the id order - and also holds a sensor of another engine)
+                        _sensor_store={2: "S2", 7: "S7-other-engine", 1: "S1"}, _estimate_store={10: "E10", 11: "E11", 12: "E12"}, _target_store={"t": 1}, reward="R",
                         _reward_executor=_NS(enqueueJob=lambda r: None, join=lambda: order.append("reward.join")),
                         _task_exec_executor=_NS(enqueueJob=lambda r: jobs.append(r), join=lambda: order.append(("exec.join", list(eng._observations), dict(eng.sensor_changes)))),
-                        _database="DB", logger=SF.NullLogger(), _unique_id=5, _importer_db=None, target_indices={10: 0, 11: 1, 12: 2},
+                        _database="DB", logger=SF.NullLogger(), _unique_id=5, _importer_db=None, target_indices={10: 0, 11: 1, 12: 2}, sensor_indices={1: 0, 2: 1},
                         calculateRewards=lambda: order.append("calculateRewards"), generateTasking=lambda: gen(eng),
                         # records of EARLIER steps that have not been written to the database yet (output step > physics step) are waiting in these queues
                         _saved_observations=["obs-of-earlier-step"], _saved_missed_observations=["miss-of-earlier-step"], _missed_observations=["miss-of-earlier-step"])
@@ -223,6 +225,8 @@ def assess_jobs(vc):
     vc.ensure("O-C08-one-record.submissions", all(ok) and len(jobs) == sum(1 for i in range(nt) if any(bool(D[i, k]) for k in range(ns))))
     joined = [o for o in order if isinstance(o, tuple) and o[0] == "exec.join"]
     vc.ensure("O-C08-reset", len(joined) == 1 and joined[0][1] == [] and joined[0][2] == {} and order.index("calculateRewards") < order.index("generateTasking"))
+    # column j of every matrix belongs to sensor_list[j]: the reward jobs are handed the sensor handles in exactly that order
+    vc.ensure("O-C08-one-record.submissions", [j[0] for j in rjobs] == ["E10", "E11", "E12"] and all(j[1] == ["S1", "S2"] for j in rjobs))
     vc.ensure("O-C08-reset.keeps-unwritten", eng._saved_observations[:1] == ["obs-of-earlier-step"] and eng._saved_missed_observations[:1] == ["miss-of-earlier-step"])
 
 
